@@ -75,7 +75,9 @@ func nestHookR() {
 	if len(Reds) == NestAtR {
 		NestAtR = -1
 		sr, sf, ss := Reds, Fetched, Steps
+		if IsTrace { fmt.Println("#NEST-BEGIN") }
 		NestResult = runNested(NestInput)
+		if IsTrace { fmt.Println("#NEST-END") }
 		Reds, Fetched, Steps = sr, sf, ss
 	}
 }
@@ -90,6 +92,7 @@ func GetToken(input string, valTy *ValType, pos *int) int {
 	if *pos >= len(input) { return -1 }
 	zzc := int(input[*pos]) - 'a'
 	*pos++
+	if zzc == 24 { panic("LEXTHROW") } // 'y': a strict lexer that gives up on an illegal character
 	// a lexer that keeps a running token count in the value record it is handed, as a line-counting lexer would;
 	// in one parse the count is the position (the record starts out zero at every Parser call)
 	valTy.zzseq++
@@ -122,6 +125,15 @@ func Run(mode string, input string) string {
 		out := []string{}
 		for _, in := range strings.Split(input, ",") { out = append(out, RunShared(in)) }
 		return strings.Join(out, " ; ")
+	case "tracen":
+		// a traced parse during which another parse (traced as well) runs from inside an action
+		f := strings.Split(input, ",")
+		fmt.Sscan(f[2], &NestAtR)
+		NestInput = f[1]
+		NestResult = "-"
+		IsTrace = true
+		defer func() { IsTrace = false; NestAtR = -1 }()
+		return RunShared(f[0])
 	case "nestr":
 		f := strings.Split(input, ",")
 		fmt.Sscan(f[2], &NestAtR)
@@ -170,6 +182,7 @@ function GetToken(input :string, model:{ValType :ValType, pos :number}) :number 
 	if (model.pos >= input.length) { return -1 }
 	let zzc = input.charCodeAt(model.pos) - 97;
 	model.pos++;
+	if (zzc == 24) { throw new Error("LEXTHROW") }
 	model.ValType = new ValType();
 	let zzx = model.pos*31 + zzc + 1;
 	switch (zzc) {
@@ -223,6 +236,8 @@ def parse_result(s):
         d['value'] = mid
     if 'STEPLIMIT' in mid:
         d['kind'] = 'L'
+    if 'LEXTHROW' in mid:
+        d['kind'] = 'T'        # the harness lexer gave up: user code threw in the middle of the parse
     return d
 
 
@@ -333,7 +348,7 @@ def run_i6(name, grammars, jobs, variants=ALL_VARIANTS, vet=False, race=False):
         if p in compile_fail:
             continue
         for (m, payload) in jobs.get(gname, []):
-            if m in ('nest', 'nestr') and vn not in ('op', 'ou', 'gp', 'gu'):
+            if m in ('nest', 'nestr', 'tracen') and vn not in ('op', 'ou', 'gp', 'gu'):
                 continue
             lines.append('%s\t%s\t%s' % (p, m, payload))
     res = {gname: {vn: {} for vn in variants} for (gname, _) in grammars}
@@ -353,6 +368,17 @@ def run_i6(name, grammars, jobs, variants=ALL_VARIANTS, vet=False, race=False):
                 res[gname][vn][(cur[1], cur[2])] = ln[4:]
                 if cur[1] == 'trace':
                     trace[(gname, vn, cur[2])] = buf
+                elif cur[1] == 'tracen':
+                    # the lines of the outer parse only: what the nested parse printed is cut out
+                    outer, depth = [], 0
+                    for bl in buf:
+                        if bl == '#NEST-BEGIN':
+                            depth += 1
+                        elif bl == '#NEST-END':
+                            depth -= 1
+                        elif depth == 0:
+                            outer.append(bl)
+                    trace[(gname, vn, 'N:' + cur[2])] = outer
                 cur = None
             else:
                 buf.append(ln)
